@@ -26,7 +26,13 @@ static GenUri mutate(Tape &t, const GenUri &u, int *kind) {
     case 2: if (m.hasAuth && m.auth.hasUser) m.auth.hasUser = false; break;
     case 3: if (m.hasAuth) { if (m.auth.hasPort) m.auth.port += "1"; else { m.auth.hasPort = true; m.auth.port = ""; } } break;
     case 4: if (m.hasAuth && m.auth.hasPort) m.auth.hasPort = false; break;
-    case 5: if (m.hasAuth && m.auth.hostKind == 1) tweak(m.auth.host); break;
+    case 5:
+      if (m.hasAuth && m.auth.hostKind == 1) tweak(m.auth.host);
+      else if (m.hasAuth && m.auth.hostKind == 4 && m.auth.host.size() >= 6) {  // IPvFuture literal: same length, other last character
+        char &c = m.auth.host[m.auth.host.size() - 2];
+        c = c == 'x' ? 'y' : 'x';
+      }
+      break;
     case 6:  // other spelling of the same IP value / other kind with look-alike text
       if (m.hasAuth) {
         if (m.auth.host == "[::1]") m.auth.host = "[0:0:0:0:0:0:0:1]";
@@ -51,7 +57,7 @@ static GenUri mutate(Tape &t, const GenUri &u, int *kind) {
         } else if (!m.path.empty() && m.path[0] != '/') m.path = "/" + m.path;
       }
       break;
-    case 12: if (m.path.empty()) m.path = m.hasAuth ? "/" : (m.hasScheme ? "a" : "a"); else if (m.path.back() == '/') m.path.pop_back(); else m.path += "/"; if (!m.hasAuth && m.path.compare(0, 2, "//") == 0) m.path = "/"; break;
+    case 12: if (m.path.empty()) m.path = m.hasAuth ? "/" : (t.coin() ? "/" : "a"); else if (m.path == "/" && t.coin()) m.path = ""; else if (m.path.back() == '/') m.path.pop_back(); else m.path += "/"; if (!m.hasAuth && m.path.compare(0, 2, "//") == 0) m.path = "/"; break;
     default: { size_t p = m.path.rfind('/'); std::string last = p == std::string::npos ? m.path : m.path.substr(p + 1); if (!last.empty() && last.find('%') == std::string::npos && last.find(':') == std::string::npos) { m.path += "x"; } else if (m.hasAuth || !m.path.empty()) m.path += "/y"; }
   }
   return m;
